@@ -252,31 +252,24 @@ def frame_queries(E):
             bad.append(conj(pathcond, mk_not(ok)))
     paths = mach.step("add_bit", st, [V("bool", term="bit10")])
     E.functions.append("Ps2Decoder::new + add_bit x11 (%d paths at the 11th bit) + check_word" % len(paths))
+    # yardstick: whole-word decoding of the same bits by the real add_word (C06 fixes no error value; C05 owns the rule)
     w = "(concat #b00000 %s)" % " ".join("(ite bit%d #b1 #b0)" % i for i in range(10, -1, -1))
-    bitx = lambda i: "bit%d" % i
-    par = "(xor %s)" % " ".join(bitx(i) for i in range(1, 10))
-    ERR = E.enums["Error"]
+    fw = E.ctx.find("Ps2Decoder", "add_word")
+    wpaths = M.execute_full(E.ctx, fw, [V("ref", target=mach.new), V("bv", term=w, w=16)])
     for c, r, post in paths:
         if isinstance(r, tuple):
             bad.append(c)
             continue
         back = veq(post, mach.new)
-        # expected: start bit0 must be 0, stop bit10 must be 1, odd parity over bits 1..9, data = bits 1..8
-        var = list(r.payload.keys())[0]
-        if var == "Err":
-            e = r.payload["Err"][0]
-            exp = "(ite bit0 %s (ite (not bit10) %s %s))" % (bvc(ERR.index("BadStartBit"), 16), bvc(ERR.index("BadStopBit"), 16), bvc(ERR.index("ParityError"), 16))
-            ok = conj("(or bit0 (not bit10) (not %s))" % par, mk_cmp("=", e.tag, exp))
-        else:
-            opt = r.payload["Ok"][0]
-            ov = list(opt.payload.keys())[0]
-            if ov != "Some":
-                ok = "false"
-            else:
-                data = "(concat %s)" % " ".join("(ite bit%d #b1 #b0)" % i for i in range(8, 0, -1))
-                ok = conj("(and (not bit0) bit10 %s)" % par, mk_cmp("=", opt.payload["Some"][0].term, data))
-        ok = conj(ok, back)
-        bad.append(conj(c, mk_not(ok)))
+        for cw, rw, _ in wpaths:
+            if isinstance(rw, tuple):
+                bad.append(conj(c, cw))
+                continue
+            var = list(rw.payload.keys())[0]
+            exp = E.ctx.enum_const("Result", "Ok", [E.ctx.enum_const("Option", "Some", rw.payload["Ok"])]) if var == "Ok" else rw
+            ok = conj(veq(r, exp), back)
+            if ok != "true":
+                bad.append(conj(conj(c, cw), mk_not(ok)))
     return decls, [("C06", "eleven_bits_from_new_equal_frame_check_and_reset", [disj(bad)], ["bit%d" % i for i in range(11)])]
 
 
